@@ -5,10 +5,10 @@ def obligations():
     return [Ob('O16.2-topo-2', 'topo_sort_packages: Err <=> cycle or missing package; Ok => complete topological order (Main + 2)', pkg_ob.ob_topo, ('quick', 'thorough'), 5, dict(pkgs=['A', 'B'], self_imports=False)),
             Ob('O16.2-topo-self', 'topo_sort_packages with self-imports and a missing package named Builtin (Main + A)', pkg_ob.ob_topo, ('quick', 'thorough'), 3, dict(pkgs=['A'], extra=('Builtin', 'Zmissing'), self_imports=True)),
             Ob('O16.2-topo-2-self', 'topo_sort_packages with self-imports (Main + 2)', pkg_ob.ob_topo, ('thorough',), 100, dict(pkgs=['A', 'B'], self_imports=True)),
-            Ob('O16.2-topo-3', 'topo_sort_packages on Main + 3 packages', pkg_ob.ob_topo, ('thorough',), 50, dict(pkgs=['A', 'B', 'C'], self_imports=False))]
+            Ob('O16.2-topo-3', 'topo_sort_packages on Main + 3 packages', pkg_ob.ob_topo, ('thorough',), 50, dict(pkgs=['A', 'B', 'C'], self_imports=False))] + __import__('props.resolve_ob', fromlist=['x']).obligations_c16()
 META = {
     'level': 'other',
     'explanation': 'Bounded solver-checked obligation over the real topo_sort_packages / visit_package (MIR of the current tree, recursion, HashSet temp/perm marks, HashMap lookups, sorting): every import graph over the stated packages (each import bit a solver variable, a missing import target allowed) and every hash iteration order; Err must be returned iff a cycle or a missing package is reachable (reference DFS oracle), every Ok order must be a complete topological order.',
-    'assumptions': ['compile_error message formatting stubbed', 'outside: directory discovery, package-declaration mismatch, orphan/duplicate impl rules, qualified-path checks in name resolution'],
+    'assumptions': ['compile_error message formatting stubbed', 'O16.3 / O16.4 add the visibility predicate of name resolution (package_allowed) and the locality predicate of the orphan rule (is_local_nominal_type) as kernels; outside: directory discovery, package-declaration mismatch, duplicate impl detection, whole-program placement of impls'],
     'trusted_base': ['mirsym MIR interpreter', 'hash container models', 'z3', 'reference DFS (oracle)'],
 }
